@@ -1,6 +1,7 @@
 // Assumed contracts on std items that vstd does not specify, plus the shim string traits.
 use vstd::prelude::*;
 use vstd::std_specs::cmp::PartialEqSpec;
+use vstd::std_specs::iter::IteratorSpec;
 verus! {
 
 /// vstd's spec map (the name `Map` is taken by cw-storage-plus in extracted modules)
@@ -134,3 +135,17 @@ pub broadcast group group_std_ext {
 }
 
 } // verus!
+verus! {
+// `slice::Iter::position` (the slice iterator's own implementation): first index whose
+// element satisfies the predicate.
+pub assume_specification<'a, T, P: FnMut(&'a T) -> bool>[ <core::slice::Iter<'a, T> as Iterator>::position ](it: &mut core::slice::Iter<'a, T>, pred: P) -> (r: Option<usize>)
+    where core::slice::Iter<'a, T>: Sized
+    requires
+        forall|i: int| 0 <= i < old(it).remaining().len() ==> call_requires(pred, (#[trigger] old(it).remaining()[i],)),
+    ensures
+        match r {
+            Some(k) => k < old(it).remaining().len() && call_ensures(pred, (old(it).remaining()[k as int],), true)
+                && forall|j: int| 0 <= j < k ==> call_ensures(pred, (#[trigger] old(it).remaining()[j],), false),
+            None => forall|j: int| 0 <= j < old(it).remaining().len() ==> call_ensures(pred, (#[trigger] old(it).remaining()[j],), false),
+        };
+}
